@@ -79,6 +79,7 @@ class Interp:
         self.method_models = {}               # (class name, method) -> callable(interp, st, recv, args, kwargs)
         self.obls = []
         self.cur_func = '?'
+        self.cur_inputs = None
         self.inlined = set()
         self.used_contracts = set()
         self.used_lemmas = set()
@@ -103,6 +104,9 @@ class Interp:
                 goal = z3.BoolVal(True)
             else:
                 goal = z3.BoolVal(False)
+        extra = dict(extra or {})
+        if self.cur_inputs is not None:
+            extra.setdefault('inputs', self.cur_inputs)
         o = Obligation(name, kind, st.pc, goal, self.cur_func, line, clause, top, extra)
         self.obls.append(o)
         return o
@@ -185,6 +189,18 @@ class Interp:
         s2.pc.append(cond)
         st.pend.append((s2, ExcVal(exc_cls, args)))
         st.pc.append(z3.Not(cond))
+
+    def concretize(self, st, v):
+        """a symbolic value that is an if-then-else over literals: fork until it is a literal"""
+        while isinstance(v, Sym) and z3.is_app(v.t) and v.t.decl().kind() == z3.Z3_OP_ITE:
+            c, a, b = v.t.children()
+            if self.branch(st, c):
+                v = mk(a, v.ty)
+            else:
+                v = mk(b, v.ty)
+        if isinstance(v, Sym) and v.ty == 'str' and z3.is_string_value(v.t):
+            return v.t.as_string()
+        return v
 
     def branch(self, st, cond):
         """fork the evaluation on a symbolic condition; returns python bool for this path"""
@@ -748,6 +764,8 @@ class Interp:
         kind, node, mod, owner = ent
         if kind == 'attr':
             return self.eval_const(node, mod, owner, st)
+        if kind == 'class':
+            return ClassRef(node.name)
         return FuncRef(node, mod, owner, '%s.%s' % (owner, node.name), kind=kind)
 
     def getattr(self, obj, attr, st):
@@ -807,6 +825,15 @@ class Interp:
             if attr == 'code' and obj.cls == 'SystemExit':
                 return obj.args[0] if obj.args else None
             raise Unsupported('exception attribute %s' % attr)
+        if isinstance(obj, tuple) and len(obj) == 3 and obj[0] == '$super':
+            _, after, inst = obj
+            p = st.get(inst)
+            ent = self.repo.class_member(p.cls, attr, after=after)
+            if ent is None:
+                return Builtin('object.' + attr)
+            kind, node, mod, owner = ent
+            fr = FuncRef(node, mod, owner, '%s.%s' % (owner, node.name), kind=kind)
+            return BoundMethod(inst, fr)
         if isinstance(obj, (str, bytes, int, Sym, tuple)) or obj is None:
             if attr == '__class__':
                 raise Unsupported('__class__')
@@ -1109,7 +1136,12 @@ class Interp:
             if e.func.id == 'cast' and len(e.args) == 2:
                 return self.eval(e.args[1], st)
             if e.func.id == 'super':
-                return Builtin('super')
+                meta = st.frame['$meta']
+                if len(e.args) == 2:
+                    c = self.eval(e.args[0], st)
+                    obj = self.eval(e.args[1], st)
+                    return ('$super', c.name, obj)
+                return ('$super', meta.get('cls'), st.frame.get('self'))
             if e.func.id in ('forall', 'exists') and st.frame['$meta'].get('module') == '$spec':
                 return ops.quantifier(self, st, e)
         f = self.eval(e.func, st)
